@@ -29,6 +29,8 @@ KERNELS = {
     "C01": ["k_index_of", "k_str_slice", "k_str_insert", "k_random", "k_unique_id", "k_str_index_length"],
     "C02": ["k_lock_loading"],
     "C03": ["k_load_module"],
+    "C04": ["k_find_file", "k_do_find_file", "k_fsloader_find"],
+    "C39": ["k_find_file", "k_do_find_file", "k_fsloader_find"],
     "C06": ["k_unique_id", "k_random"],
     "C11": ["k_plus_minus_units", "k_numeric_cmp", "k_unitset_simplify"],
     "C13": ["k_map_merge"],
@@ -364,6 +366,20 @@ STRUCTURAL_PROBES = {
         (({"a.scss": '@use "b";\nx { y: a }\n', "_b.scss": '@use "a";\nx { y: b }\n'}, "a.scss"), "<error>"),
         (({"a.scss": '@import "b";\n@import "c";\n', "_b.scss": '@import "c";\nx { y: b }\n', "_c.scss": 'x { y: c }\n'}, "a.scss"), "x { y: c; } x { y: b; } x { y: c; }"),
     ],
+    "k_find_file": [
+        (({"a.scss": '@use "u";\n', "u.scss": "x { y: plain }\n", "_u.scss": "x { y: partial }\n"}, "a.scss"), "y: plain"),
+        (({"a.scss": '@use "u";\n', "_u.scss": "x { y: partial }\n", "u/index.scss": "x { y: index }\n"}, "a.scss"), "y: partial"),
+        (({"a.scss": '@use "u";\n', "u/index.scss": "x { y: index }\n", "u/_index.scss": "x { y: pindex }\n", "u.css": "x { y: css }\n"}, "a.scss"), "y: index"),
+        (({"a.scss": '@use "u";\n', "u/_index.scss": "x { y: pindex }\n", "u.css": "x { y: css }\n"}, "a.scss"), "y: pindex"),
+        (({"a.scss": '@use "u";\n', "u.css": "x { y: css }\n", "_u.css": "x { y: pcss }\n"}, "a.scss"), "y: css"),
+        (({"a.scss": '@use "u";\n', "u.import.scss": "x { y: imp }\n", "_u.scss": "x { y: partial }\n"}, "a.scss"), "y: partial"),
+        (({"a.scss": '@import "u";\n', "u.import.scss": "x { y: imp }\n", "u.scss": "x { y: plain }\n"}, "a.scss"), "y: imp"),
+        (({"a.scss": '@import "u";\n', "_u.import.scss": "x { y: pimp }\n", "u.scss": "x { y: plain }\n"}, "a.scss"), "y: pimp"),
+        (({"a.scss": '@import "u";\n', "_u.scss": "x { y: partial }\n", "u/index.import.scss": "x { y: iimp }\n"}, "a.scss"), "y: partial"),
+        (({"a.scss": '@import "u";\n', "u/_index.import.scss": "x { y: piimp }\n", "u/index.scss": "x { y: index }\n"}, "a.scss"), "y: piimp"),
+        (({"a.scss": '@use "nope";\n'}, "a.scss"), "<error>"),
+        (({"d/a.scss": '@use "u";\n', "d/_u.scss": "x { y: sibling }\n", "_u.scss": "x { y: root }\n"}, "d/a.scss"), "y: sibling"),
+    ],
     "k_load_module": [
         (({"a.scss": '@use "b";\n@use "c";\nx { y: a }\n', "_b.scss": '@use "c";\nx { y: b }\n', "_c.scss": 'x { y: c }\n'}, "a.scss"), "x { y: c; } x { y: b; } x { y: a; }"),
         (({"a.scss": '@use "b";\nx { y: b.$v }\n', "_b.scss": '$v: 1;\nx { y: b }\n'}, "a.scss"), "x { y: b; } x { y: 1; }"),
@@ -386,6 +402,10 @@ STRUCTURAL_PROBES = {
     "k_lighten_darken": [("lightness(darken(#333, 50%))", "0%"), ("lightness(lighten(#ccc, 50%))", "100%"),
                          ("saturation(desaturate(hsl(0, 20%, 50%), 50%))", "0%"), ("hue(lighten(hsl(77, 20%, 50%), 10%))", "77deg")],
 }
+
+
+STRUCTURAL_PROBES["k_do_find_file"] = STRUCTURAL_PROBES["k_find_file"]
+STRUCTURAL_PROBES["k_fsloader_find"] = STRUCTURAL_PROBES["k_find_file"]
 
 
 def structural_probe(kernel, label=""):
